@@ -271,14 +271,43 @@ Section WithHome.
   Definition keyfiles (cfg : config) : list path := flat_map keyfiles_of cfg.
 End WithHome.
 
+(* ---- histories: several saves of one configuration object, with other processes changing files in
+   between.  Between two saves no key context is open (each `with` of SecureField.to_basic has been
+   left, also when it was left by an exception), so every KeyFile object is closed and holds no key
+   (KeyFile.v / C07 closed_no_key): each save starts from the file system alone, and a history is the
+   world threaded through `save`. ---- *)
+Inductive sstep :=
+| SSave (cfg : list field) (dest : path) (fmt : option formatter)   (* cfg.save(dest, format) with the values/faults of this step *)
+| SExt (p : path) (content : option bytes).                          (* someone else writes (Some) or deletes (None) a file *)
+
+Definition with_log (w : world) (l : list path) : world :=
+  {| sv_files := sv_files w; sv_nowrite := sv_nowrite w; sv_rng := sv_rng w; sv_log := l |}.
+Definition ext_change (w : world) (p : path) (content : option bytes) : world :=
+  {| sv_files := match content with
+                 | Some b => assoc_set str_eqb p b (sv_files w)
+                 | None => assoc_del str_eqb p (sv_files w)
+                 end;
+     sv_nowrite := sv_nowrite w; sv_rng := sv_rng w; sv_log := sv_log w |}.
+
+(* one step; the write log is restarted so that it shows the opens of this step *)
+Definition do_step (home : str) (w : world) (s : sstep) : world * res unit :=
+  match s with
+  | SSave cfg dest fmt => save home (with_log w []) cfg dest fmt
+  | SExt p c => (ext_change (with_log w []) p c, Ok tt)
+  end.
+
+Fixpoint run_steps (home : str) (w : world) (steps : list sstep) : world :=
+  match steps with
+  | [] => w
+  | s :: r => run_steps home (fst (do_step home w s)) r
+  end.
+
 (* ---- correspondence: one case of stream `savefaults` ---- *)
 Record scase := {
   c_home : str;
   c_world : world;
-  c_cfg : list field;
-  c_dest : path;
-  c_fmt : option (res bytes);      (* None: unknown format name; Some r: what the formatter answers for this tree *)
-  c_watch : list path              (* the files whose final content is observed (destination, key files) *)
+  c_steps : list sstep;
+  c_watch : list path              (* the files whose content is observed after every step (destinations, key files) *)
 }.
 
 Definition o_unit_res (r : res unit) : pyval :=
@@ -289,9 +318,19 @@ Definition o_unit_res (r : res unit) : pyval :=
   end.
 Definition o_content (b : option bytes) : pyval := match b with Some x => PBytes x | None => PNone end.
 
+(* a formatter that answers r whatever the tree: the correspondence is told the formatter's outcome *)
+Definition fconst (r : res bytes) : formatter := fun _ => r.
+
+Fixpoint trace_steps (home : str) (watch : list path) (w : world) (steps : list sstep) : list pyval :=
+  match steps with
+  | [] => []
+  | s :: r =>
+      let '(w', res) := do_step home w s in
+      PTuple [match s with SSave _ _ _ => o_unit_res res | SExt _ _ => o_str "ext" end;
+              PList 0 (map PStr (sv_log w'));
+              PList 0 (map (fun p => o_content (lookup w' p)) watch)]
+      :: trace_steps home watch w' r
+  end.
+
 Definition run_savefaults (c : scase) : pyval :=
-  let fmt := match c_fmt c with None => None | Some r => Some (fun _ : pyval => r) end in
-  let '(w', r) := save (c_home c) (c_world c) (c_cfg c) (c_dest c) fmt in
-  PTuple [o_unit_res r;
-          PList 0 (map PStr (sv_log w'));
-          PList 0 (map (fun p => o_content (lookup w' p)) (c_watch c))].
+  PList 0 (trace_steps (c_home c) (c_watch c) (c_world c) (c_steps c)).
